@@ -308,14 +308,14 @@ def r4_write_back(ctx):
                     key='setter-filter')
 
 
-def r5_upgrade_method_compared_by_value(ctx):
+def r5_upgrade_method_compared_by_value(ctx, rule_id='R-C10.5'):
     """UpgradeMethod.EVOLUTIONS / MIGRATIONS are plain strings.  A stored
     signature comes back from JSON with *equal* but not *identical* strings,
     so `sig.upgrade_method is UpgradeMethod.MIGRATIONS` is true right after
     the hand-over and false on every later run: the applied-migration list
     silently stops being written, evolution SQL is considered again.  Every
     comparison against these constants must be by value."""
-    ctx.rule('R-C10.5')
+    ctx.rule(rule_id)
     p = ctx.program
     consts = p.cls('consts', 'UpgradeMethod')
     members = {k for k, v in consts.class_attrs.items()
